@@ -375,6 +375,10 @@ void env_set_var(Environment *env, const char *name, Value value) {
     if (sym) {
         /* A struct record may be shared with other variables (let q: P = p) and with the
          * value being assigned (set p p): it is not owned by this symbol alone */
+        if (sym->value.type == VAL_STRING && value.type == VAL_STRING &&
+            sym->value.as.string_val == value.as.string_val) {
+            return;   /* set s s: the variable already holds this very string; releasing it first would leave it dangling */
+        }
         if (sym->value.type != VAL_STRUCT) {
             env_free_value(sym->value);
         }
